@@ -131,16 +131,21 @@ class LMEModel(StatelessModel):
         # design matrix (same for fixed and random effects)
         X = sm.add_constant(ages_norm, prepend=True, has_constant="add")
 
+        def scalar(name: str) -> float:
+            # a numpy / torch scalar (personalization output), a Python number or a 1-element list
+            # (the forms individual parameters take once read back from a JSON / CSV file)
+            return float(np.asarray(individual_parameters[name], dtype=float).reshape(-1)[0])
+
         # assert 'random_intercept' in individual_parameters
         if not self.with_random_slope_age:
             # no random slope on ages (fixed effect only)
-            re_params = np.array([individual_parameters["random_intercept"].item(), 0])
+            re_params = np.array([scalar("random_intercept"), 0])
         else:
             # assert 'random_slope_age' in individual_parameters
             re_params = np.array(
                 [
-                    individual_parameters["random_intercept"].item(),
-                    individual_parameters["random_slope_age"].item(),
+                    scalar("random_intercept"),
+                    scalar("random_slope_age"),
                 ]
             )
         y = X @ (self.parameters["fe_params"] + re_params)
